@@ -110,7 +110,7 @@ def impl(case):
 
 
 VIAS = ["scratch", "scratch-set", "comm.PDUData", "comm.PDU", "pdu.PDU", "pdu.PDUData", "ctor", "tagctor",
-        "mutate", "bytearray"]
+        "mutate", "bytearray", "classctor"]
 _keep = []          # decoded tags kept alive across cases (object identity / aliasing oracle)
 
 
@@ -140,7 +140,38 @@ def impl_via(case):
             tags.append(jtag(t))
             t.encode(out)
         return {"r": "ok", "tags": tags, "re": bytes(out.pduData).hex()}
-    if via == "ctor":
+    if via == "classctor":
+        # the class-checking constructors ApplicationTag(pdu) / ContextTag(pdu) / OpeningTag(pdu) /
+        # ClosingTag(pdu): told the class the plain decode found they must give the same tag; told another
+        # class, or given a buffer with nothing (left) in it, they must refuse with InvalidTag
+        from bacpypes.primitivedata import ApplicationTag, ContextTag, OpeningTag, ClosingTag
+        from bacpypes.errors import InvalidTag
+        ctors = [ApplicationTag, ContextTag, OpeningTag, ClosingTag]
+        plain = impl({"op": "dec", "hex": case["hex"]})
+        if plain.get("r") == "ok":
+            tl = TagList()
+            for t in plain["tags"]:
+                other = ctors[(t[0] + 1) % 4]
+                probe = bufcls(bytes(buf.pduData))
+                try:
+                    other(probe)
+                    return {"r": "err", "k": "python:WrongClassAccepted"}
+                except InvalidTag:
+                    pass
+                tl.append(ctors[t[0]](buf))
+            for c in ctors:                       # nothing left now
+                try:
+                    c(buf)
+                    return {"r": "err", "k": "python:EmptyAccepted"}
+                except InvalidTag:
+                    pass
+        else:
+            tl = TagList()
+            while buf.pduData:
+                lead = buf.pduData[0]
+                cls = 2 if (lead & 0x0F) == 0x0E else 3 if (lead & 0x0F) == 0x0F else 1 if lead & 0x08 else 0
+                tl.append(ctors[cls](buf))
+    elif via == "ctor":
         tl = TagList(buf)
         if buf.pduData:
             return {"r": "err", "k": "python:NotConsumed"}
@@ -257,6 +288,39 @@ def oracle(ctx, case, a):
                 got = "raised " + core.exc_kind(e)
             if got != "0102" + a["hex"]:
                 ctx.fail("usage-dependent", case, "encoding the same tag objects again into a %s holding 01 02 gives %s" % (name, got[:80]))
+                break
+    if op == "enc" and a.get("r") == "ok" and len(a["hex"]) < 4000 and case["tags"]:
+        # tags built from a caller's bytearray (every construction form) that the caller goes on using:
+        # the tag must hold what it was given
+        from bacpypes.primitivedata import Tag, TagList, ApplicationTag, ContextTag
+        import bacpypes.pdu as pdu_mod
+        for form in ("ctor", "set", "set_app_data", "subclass"):
+            tags, scratch = [], []
+            for t in case["tags"]:
+                data = bytearray(bytes.fromhex(t[3]))
+                scratch.append(data)
+                if form == "ctor" or t[0] in (2, 3) or (t[0] == 0 and t[1] == 1):
+                    tags.append(Tag(t[0], t[1], t[2], data))
+                elif form == "set":
+                    x = Tag(); x.set(t[0], t[1], t[2], data); tags.append(x)
+                elif form == "set_app_data" and t[0] == 0:
+                    x = Tag(); x.set_app_data(t[1], data); tags.append(x)
+                elif form == "subclass":
+                    tags.append((ApplicationTag if t[0] == 0 else ContextTag)(t[1], data))
+                else:
+                    tags.append(Tag(t[0], t[1], t[2], data))
+            for d in scratch:                       # the caller reuses its buffers
+                d += b"\xee\xee"
+                if len(d) > 2:
+                    d[0] ^= 0xFF
+            try:
+                buf = pdu_mod.PDUData()
+                TagList(tags).encode(buf)
+                got = bytes(buf.pduData).hex()
+            except Exception as e:
+                got = "raised " + core.exc_kind(e)
+            if got != a["hex"]:
+                ctx.fail("usage-dependent", case, "tags built (%s) from bytearrays the caller changed afterwards encode to %s" % (form, got[:80]))
                 break
     if op == "enc":
         # decode(encode(ts)) == ts, every octet consumed; canonical headers
@@ -415,6 +479,78 @@ def gen_via(ctx, rng, dec_cases):
     return cases
 
 
+def service_layer(ctx, rng):
+    """the tag codec as the service layer drives it (APCISequence.encode / .decode keep a tag list on the
+    PDU object): the same request object encoded again gives the same octets; decoding into an object that
+    was used before gives what a fresh object gives"""
+    from bacpypes.apdu import (APDU, WhoIsRequest, IAmRequest, ReadPropertyRequest, WritePropertyRequest,
+                               ReadPropertyACK, SubscribeCOVRequest)
+    from bacpypes.primitivedata import Unsigned, Real, TagList
+    from bacpypes.constructeddata import Any
+    from bacpypes.pdu import PDUData
+
+    def mk():
+        out = [WhoIsRequest(), WhoIsRequest(deviceInstanceRangeLowLimit=rng.randrange(100), deviceInstanceRangeHighLimit=4194303),
+               IAmRequest(iAmDeviceIdentifier=("device", rng.randrange(4194303)), maxAPDULengthAccepted=1476,
+                          segmentationSupported="segmentedBoth", vendorID=rng.randrange(65536)),
+               ReadPropertyRequest(objectIdentifier=("analogValue", rng.randrange(1000)), propertyIdentifier="presentValue"),
+               ReadPropertyRequest(objectIdentifier=("device", 1), propertyIdentifier="objectList", propertyArrayIndex=rng.randrange(70000)),
+               SubscribeCOVRequest(subscriberProcessIdentifier=rng.randrange(2 ** 32), monitoredObjectIdentifier=("binaryValue", 3),
+                                   issueConfirmedNotifications=True, lifetime=rng.randrange(2 ** 20))]
+        w = WritePropertyRequest(objectIdentifier=("analogValue", 1), propertyIdentifier="presentValue", priority=8)
+        w.propertyValue = Any(); w.propertyValue.cast_in(Real(1.5))
+        out.append(w)
+        r = ReadPropertyACK(objectIdentifier=("analogValue", 1), propertyIdentifier="presentValue")
+        r.propertyValue = Any(); r.propertyValue.cast_in(Unsigned(rng.randrange(2 ** 30)))
+        out.append(r)
+        return out
+
+    def tags_of(apdu):
+        tl = TagList()
+        tl.decode(PDUData(bytes(apdu.pduData)))
+        return [jtag(t) for t in tl.tagList]
+
+    objs = mk()
+    firsts = []
+    for o in objs:
+        case = {"op": "service-layer", "cls": o.__class__.__name__}
+        try:
+            x = APDU(); o.encode(x); first = tags_of(x)
+            firsts.append((o, x, first))
+            for k in range(2):
+                y = APDU(); o.encode(y)
+                if tags_of(y) != first:
+                    ctx.fail("usage-dependent", case, "the same %s object encoded again gives %d tags, the first time %d" % (
+                        case["cls"], len(tags_of(y)), len(first)))
+                    break
+        except Exception as e:
+            ctx.fail("unexpected-exception", case, "encoding twice raised %s" % core.exc_kind(e))
+        ctx.count("service-layer", ("enc", case["cls"]))
+    # decode into used objects: an object that was ENCODED before, and one that DECODED something else before
+    for (o, x, first), (o2, x2, first2) in zip(firsts, firsts[1:] + firsts[:1]):
+        case = {"op": "service-layer", "cls": o.__class__.__name__, "after": o2.__class__.__name__}
+        try:
+            fresh = o.__class__(); fresh.decode(_copy_apdu(x))
+            used = o.__class__(**{}) ; z = APDU(); o.encode(z)      # o has been encoded (again) just now
+            o.decode(_copy_apdu(x))
+            y = APDU(); o.encode(y)
+            y2 = APDU(); fresh.encode(y2)
+            if tags_of(y) != first or tags_of(y2) != first:
+                ctx.fail("usage-dependent", case, "decoding the frame into a %s object that was encoded before and re-encoding gives %d tags, the frame has %d" % (
+                    case["cls"], len(tags_of(y)), len(first)))
+        except Exception as e:
+            ctx.fail("unexpected-exception", case, "decode into a used object raised %s" % core.exc_kind(e))
+        ctx.count("service-layer", ("dec", case["cls"]))
+
+
+def _copy_apdu(x):
+    from bacpypes.apdu import APDU
+    y = APDU()
+    y.update(x)
+    y.pduData = bytearray(bytes(x.pduData))
+    return y
+
+
 def gen_shapes(ctx, rng):
     """all shapes over {app, ctx c0, ctx c1, open c0, open c1, close c0, close c1}"""
     alphabet = [[0, 2, 1, "07"], [1, 0, 1, "aa"], [1, 1, 1, "bb"],
@@ -552,6 +688,8 @@ def run(ctx):
     mutated = gen_dec_mutated(ctx, rng, enc, impl_enc)
     run_cases(ctx, "dec-mutated", mutated)
     run_cases(ctx, "dec-via", gen_via(ctx, rng, mutated))
+    for _ in range(4 if ctx.quick else 40):
+        service_layer(ctx, rng)
     shapes = gen_shapes(ctx, rng)
     run_cases(ctx, "shapes", shapes)
     run_cases(ctx, "noncanonical", gen_noncanonical(ctx, rng))
